@@ -536,6 +536,28 @@ def r8_3(ctx):
         ctx.ok("R8.3", where(fi), "INBOX recognised by whole-token case-insensitive comparison")
     else:
         ctx.bad("R8.3", fi.module, fi.qual, "_p_mailbox", "_p_mailbox no longer recognises INBOX case-insensitively", fi.node.lineno)
+    # ... and the comparison has to see the name in the form that is handed on: a name that only becomes `inbox` through the
+    # normalisation (`INBOX/`, `./inbox`, `/Inbox`) must be recognised too, else it names a second mailbox beside the inbox
+    name_rets = [r for r in body_walk(fi.node) if isinstance(r, ast.Return) and isinstance(r.value, ast.Name)]
+    for r in name_rets:
+        v = r.value.id
+        rewrites = [
+            s_ for s_ in body_walk(fi.node)
+            if isinstance(s_, ast.Assign) and norm(s_.targets[0]) == v and isinstance(s_.value, ast.Call) and call_name(s_.value) in ("normpath", "lstrip", "strip", "rstrip", "removeprefix", "removesuffix")
+        ]
+        if not rewrites:
+            continue
+        last = max(rewrites, key=lambda s_: s_.lineno)
+        tests_after = [w for w in whole if w.lineno > last.lineno and norm(call_recv(w.left)) == v]
+        if tests_after:
+            ctx.ok("R8.3", where(fi), f"`{v}` is compared with 'inbox' again after its last normalisation ({norm(last, 50)})")
+        else:
+            ctx.bad(
+                "R8.3", fi.module, fi.qual, f"no INBOX test after {norm(last, 60)}",
+                f"the INBOX comparison only sees the name as the client wrote it; after `{norm(last, 50)}` names like `INBOX/`, `./inbox` "
+                "or `/INBOX` are the inbox too but are handed on as a different mailbox `INBOX` (a second inbox beside the real one)",
+                last.lineno,
+            )
     # the list-pattern variant
     lp = p.func("parse.IMAPClientCommand._p_list_mailbox_pattern")
     from .common import pm_of
